@@ -85,20 +85,37 @@ class Ctx:
         shutil.rmtree(self.scratch, ignore_errors=True)
 
     # ------------------------------------------------------------ srcgen
-    def srcgen(self):
+    def srcgen(self, gen_names=None):
+        """regenerate coq/Generated/<name>.v for the given generator names (default: every generator).
+        Each property builds its own srcgen binary from main.go + its gen_*.go files, so a generator under edit for
+        another property cannot break this one."""
         with Lock("build"):
             os.makedirs(BUILD, exist_ok=True)
-            rc, out, err, _ = run(["go", "build"] + MODFLAGS + ["-o", os.path.join(BUILD, "srcgen"), "./cmd/srcgen"], cwd=HARNESS, env=GOENV, timeout=600)
+            sdir = os.path.join(HARNESS, "cmd", "srcgen")
+            if gen_names:
+                files = ["main.go"] + ["gen_%s.go" % re.sub(r"_gen$", "", g).lower() for g in gen_names]
+                files = [f for f in files if os.path.exists(os.path.join(sdir, f))]
+                exe = os.path.join(BUILD, "srcgen-" + self.unit)
+                cmd = ["go", "build"] + MODFLAGS + ["-o", exe] + files
+                cwd = sdir
+            else:
+                exe = os.path.join(BUILD, "srcgen")
+                cmd = ["go", "build"] + MODFLAGS + ["-o", exe, "./cmd/srcgen"]
+                cwd = HARNESS
+            rc, out, err, _ = run(cmd, cwd=cwd, env=GOENV, timeout=600)
             if rc != 0:
-                if os.path.exists(os.path.join(BUILD, "srcgen")):
-                    self.notes.append("srcgen did not rebuild (generator source under edit?); using the previous binary: " + err[-200:])
-                else:
-                    raise SystemExit("srcgen build failed:\n" + err)
+                raise SystemExit("srcgen build failed:\n" + err)
             summ = os.path.join(self.scratch, "srcgen.json")
-            rc, out, err, _ = run([os.path.join(BUILD, "srcgen"), "-repo", REPO, "-out", os.path.join(COQ, "Generated"), "-summary", summ], timeout=120)
+            rc, out, err, _ = run([exe, "-repo", REPO, "-out", os.path.join(COQ, "Generated"), "-summary", summ], timeout=120)
             if rc != 0:
                 raise SystemExit("srcgen failed:\n" + err)
-            self.srcgen_summary = json.load(open(summ))
+            new = json.load(open(summ))
+            if self.srcgen_summary is None:
+                self.srcgen_summary = new
+            else:   # merge (format units run several generators in one check)
+                for k in ("broken_by_file", "fingerprints"):
+                    self.srcgen_summary[k].update(new.get(k) or {})
+                self.srcgen_summary["broken"] = (self.srcgen_summary.get("broken") or []) + (new.get("broken") or [])
         return self.srcgen_summary
 
     def fingerprints_changed(self, prefix_list):
@@ -251,7 +268,7 @@ class Ctx:
         """srcgen + Coq build of <dir>/Properties.vo and <dir>/Run.vo for each dir + harness build + model extraction.
         Returns a dict describing what is intact."""
         pid = self.pid
-        self.srcgen()
+        self.srcgen(gen_names)
         broken = []
         for g in gen_names:
             broken += self.srcgen_summary["broken_by_file"].get(g, [])
